@@ -253,9 +253,11 @@ func (root *Root) addTypes(types ...Type) error {
 			}
 			root.dirs.add(t)
 		} else {
-			if root.types.get(name) != nil {
-				// If a scalar, do not replace and do not complain.
-				if t.Rank() == rankScalar {
+			if cur := root.types.get(name); cur != nil {
+				// Declaring a scalar again is tolerated, do not replace and
+				// do not complain. Any other type with that name is a
+				// duplicate.
+				if t.Rank() == rankScalar && cur.Rank() == rankScalar {
 					continue
 				}
 				return fmt.Errorf("%w: %s is already in the schema", ErrDuplicate, name)
